@@ -232,7 +232,7 @@ class ExprGen:
         if k < 0.55:
             return self.boolean(d)
         if d <= 0 or k < 0.7:
-            v = self.var('nsbzdaofr')
+            v = self.var('nsbzdaofr?')
             return v if v else ('var', 'null')
         self.nops += 1
         if k < 0.84:
